@@ -79,6 +79,8 @@ func RunStacks(repo *load.Repo, s *report.Sink) (err error) {
 			ok, why := m.isForwarder(fn, meth.Name(), &results)
 			if ok {
 				ok, why = m.collectsResults(fn, results)
+			} else if ok2, _ := m.viaCombinator(fn, meth.Name()); ok2 {
+				ok, why = true, ""
 			}
 			s.Check(ok, "L2", key, m.pos(fn.Pos()), "one e."+meth.Name()+"(args) per element, collected in order", "stack "+key+" does not build exactly one initialised emitter per stacked emitter with the same arguments ("+why+")")
 		}
@@ -101,6 +103,12 @@ func RunStacks(repo *load.Repo, s *report.Sink) (err error) {
 // method `name` on the element exactly once, passing fn's own parameters in order; nothing else with an
 // effect happens in fn. If results != nil the values returned by the invocations are appended to it.
 func (m *model) isForwarder(fn *ssa.Function, name string, results *[]ssa.Value) (bool, string) {
+	return m.forwardShape(fn, name, nil, results)
+}
+
+// forwardShape is isForwarder with the per-element call either `elem.<name>(params...)` (apply == nil) or
+// `apply(elem)` for a function-typed parameter `apply` of fn (a map-style helper).
+func (m *model) forwardShape(fn *ssa.Function, name string, apply *ssa.Parameter, results *[]ssa.Value) (bool, string) {
 	if len(fn.Params) == 0 {
 		return false, "no receiver"
 	}
@@ -135,16 +143,25 @@ func (m *model) isForwarder(fn *ssa.Function, name string, results *[]ssa.Value)
 		return false, fmt.Sprintf("%d calls (want exactly one forwarding call)", len(calls))
 	}
 	c := calls[0]
-	if !c.Call.IsInvoke() || c.Call.Method.Name() != name {
-		got := "a non-method call"
-		if c.Call.IsInvoke() {
-			got = c.Call.Method.Name()
+	var elem ssa.Value
+	if apply != nil {
+		if c.Call.IsInvoke() || ssax.Unspill(c.Call.Value) != ssa.Value(apply) || len(c.Call.Args) != 1 {
+			return false, "the per-element call is not the function parameter applied to the element"
 		}
-		return false, fmt.Sprintf("forwards to %s instead of %s", got, name)
+		elem = c.Call.Args[0]
+	} else {
+		if !c.Call.IsInvoke() || c.Call.Method.Name() != name {
+			got := "a non-method call"
+			if c.Call.IsInvoke() {
+				got = c.Call.Method.Name()
+			}
+			return false, fmt.Sprintf("forwards to %s instead of %s", got, name)
+		}
+		elem = c.Call.Value
 	}
-	tl := m.elemOf(ssax.Unspill(c.Call.Value))
+	tl := m.elemOf(ssax.Unspill(elem))
 	if tl == nil {
-		tl = m.elemOf(c.Call.Value)
+		tl = m.elemOf(elem)
 	}
 	if tl == nil || tl.sliceKey != recvKey {
 		return false, "the call is not made on the element of a traversal of the receiver"
@@ -164,12 +181,14 @@ func (m *model) isForwarder(fn *ssa.Function, name string, results *[]ssa.Value)
 			return false, "the traversal is nested in another loop"
 		}
 	}
-	if len(c.Call.Args) != len(params) {
-		return false, "argument count differs from the parameter count"
-	}
-	for i, a := range c.Call.Args {
-		if ssax.Unspill(a) != ssa.Value(params[i]) {
-			return false, fmt.Sprintf("argument %d is not parameter %d", i, i)
+	if apply == nil {
+		if len(c.Call.Args) != len(params) {
+			return false, "argument count differs from the parameter count"
+		}
+		for i, a := range c.Call.Args {
+			if ssax.Unspill(a) != ssa.Value(params[i]) {
+				return false, fmt.Sprintf("argument %d is not parameter %d", i, i)
+			}
 		}
 	}
 	if results != nil {
@@ -486,4 +505,156 @@ func (m *model) assertGuard(as []atom, elemKey string, t types.Type, want bool) 
 		}
 	}
 	return good && n == 1
+}
+
+// viaCombinator: fn is `return T(h(recv, func(e E) R { return e.<name>(params...) }))` where h is a map-style
+// helper: it traverses its first parameter completely, applies its function parameter to every element
+// exactly once, unconditionally, and returns the results collected in order.
+func (m *model) viaCombinator(fn *ssa.Function, name string) (bool, string) {
+	if len(fn.Params) == 0 {
+		return false, "no receiver"
+	}
+	var calls []*ssa.Call
+	bad := false
+	ssax.Instrs(fn, func(in ssa.Instruction) {
+		switch x := in.(type) {
+		case *ssa.Call:
+			if _, isB := x.Call.Value.(*ssa.Builtin); !isB {
+				calls = append(calls, x)
+			}
+		case *ssa.Go, *ssa.Defer, *ssa.Send, *ssa.Select, *ssa.Panic, *ssa.MapUpdate:
+			bad = true
+		case *ssa.Store:
+			if _, isAlloc := x.Addr.(*ssa.Alloc); !isAlloc {
+				bad = true
+			}
+		}
+	})
+	if bad || len(calls) != 1 {
+		return false, "not a single call of a helper"
+	}
+	c := calls[0]
+	h := c.Call.StaticCallee()
+	if h == nil || h.Blocks == nil || len(c.Call.Args) != 2 || len(h.Params) != 2 {
+		return false, "not a call of a two-parameter helper"
+	}
+	recv := ssax.Unspill(c.Call.Args[0])
+	if ct, ok := recv.(*ssa.ChangeType); ok {
+		recv = ssax.Unspill(ct.X)
+	}
+	if recv != ssa.Value(fn.Params[0]) {
+		return false, "the helper is not given the receiver"
+	}
+	mc, ok := c.Call.Args[1].(*ssa.MakeClosure)
+	if !ok {
+		return false, "the helper is not given a function literal"
+	}
+	g, _ := mc.Fn.(*ssa.Function)
+	if g == nil || g.Parent() != fn || len(g.Params) != 1 {
+		return false, "the function literal does not take the element"
+	}
+	// g: return e.<name>(params of fn, in order)
+	var gcalls []*ssa.Call
+	gbad := false
+	ssax.Instrs(g, func(in ssa.Instruction) {
+		switch x := in.(type) {
+		case *ssa.Call:
+			if _, isB := x.Call.Value.(*ssa.Builtin); !isB {
+				gcalls = append(gcalls, x)
+			}
+		case *ssa.Go, *ssa.Defer, *ssa.Send, *ssa.Select, *ssa.Panic, *ssa.MapUpdate, *ssa.Store, *ssa.If:
+			gbad = true
+		}
+	})
+	if gbad || len(gcalls) != 1 {
+		return false, "the function literal does more than forward"
+	}
+	gc := gcalls[0]
+	if !gc.Call.IsInvoke() || gc.Call.Method.Name() != name || ssax.Unspill(gc.Call.Value) != ssa.Value(g.Params[0]) {
+		return false, "the function literal does not call " + name + " on the element"
+	}
+	params := fn.Params[1:]
+	if len(gc.Call.Args) != len(params) {
+		return false, "argument count differs from the parameter count"
+	}
+	isParam := func(a ssa.Value, p *ssa.Parameter) bool {
+		a = ssax.Unspill(a)
+		if a == ssa.Value(p) {
+			return true
+		}
+		var fv *ssa.FreeVar
+		if u, ok := a.(*ssa.UnOp); ok && u.Op == token.MUL {
+			fv, _ = u.X.(*ssa.FreeVar)
+		} else {
+			fv, _ = a.(*ssa.FreeVar)
+		}
+		if fv == nil {
+			return false
+		}
+		b := ssax.BindingOf(fv)
+		if b == ssa.Value(p) {
+			return true
+		}
+		al, ok := b.(*ssa.Alloc)
+		if !ok {
+			return false
+		}
+		n, good := 0, false
+		for _, r := range *al.Referrers() {
+			if st, ok := r.(*ssa.Store); ok && st.Addr == ssa.Value(al) {
+				n++
+				good = st.Val == ssa.Value(p)
+			}
+		}
+		return n == 1 && good
+	}
+	for i, a := range gc.Call.Args {
+		if !isParam(a, params[i]) {
+			return false, fmt.Sprintf("argument %d of the forwarded call is not parameter %d", i, i)
+		}
+	}
+	var gret *ssa.Return
+	ng := 0
+	ssax.Instrs(g, func(in ssa.Instruction) {
+		if r, ok := in.(*ssa.Return); ok && r.Block() != g.Recover {
+			gret = r
+			ng++
+		}
+	})
+	if ng != 1 || len(gret.Results) != 1 || ssax.Unspill(gret.Results[0]) != ssa.Value(gc) {
+		return false, "the function literal does not return the forwarded call's result"
+	}
+	// h: the map-style helper
+	var results []ssa.Value
+	if ok, why := m.forwardShape(h, "", h.Params[1], &results); !ok {
+		return false, "helper " + h.Name() + ": " + why
+	}
+	if ok, why := m.collectsResults(h, results); !ok {
+		return false, "helper " + h.Name() + ": " + why
+	}
+	// fn returns the helper's result
+	var ret *ssa.Return
+	n := 0
+	ssax.Instrs(fn, func(in ssa.Instruction) {
+		if r, ok := in.(*ssa.Return); ok && r.Block() != fn.Recover {
+			ret = r
+			n++
+		}
+	})
+	if n != 1 || len(ret.Results) != 1 {
+		return false, "not exactly one return"
+	}
+	out := ret.Results[0]
+	for i := 0; i < 3; i++ {
+		switch x := out.(type) {
+		case *ssa.MakeInterface:
+			out = x.X
+		case *ssa.ChangeType:
+			out = x.X
+		}
+	}
+	if out != ssa.Value(c) {
+		return false, "the helper's result is not what is returned"
+	}
+	return true, ""
 }
